@@ -70,7 +70,9 @@ def handle (op : String) (args : List String) : Option (String × String × Stri
     let ((mrw, srw), tl) ← parseRw (toks.length + 2) toks
     if !tl.isEmpty then none
     let inp ← fromHex inh
-    let m := match Model.Proto.rewrite (4 * inp.length + 64) mrw inp with
+    -- fuel: Lemmas.ProtoRewriteSpec.rewrite_fine needs inp.length + fuelD r; the token count bounds the size of r
+    let fuel := 4 * inp.length + 64 + 16 * toks.length
+    let m := match Model.Proto.rewrite fuel mrw inp with
       | .ok b => "ok:" ++ toHex b
       | .err _ => "err"
       | .panic e => "panic:" ++ e
@@ -79,7 +81,7 @@ def handle (op : String) (args : List String) : Option (String × String × Stri
       | [implhex] =>
         (match (fromHex implhex) with
          | some ib =>
-           (match Spec.Protobuf.specRw (4 * inp.length + 64) srw inp, Spec.Protobuf.parse (ib.length + 1) ib with
+           (match Spec.Protobuf.specRw fuel srw inp, Spec.Protobuf.parse (ib.length + 1) ib with
             | some want, some got =>
               if want.map Spec.Protobuf.showRec == got.map Spec.Protobuf.showRec then "ok:" ++ implhex
               else "records:" ++ String.intercalate "," (want.map Spec.Protobuf.showRec)
